@@ -20,6 +20,7 @@ import (
 func Normalize(p *core.Program) {
 	curProg = p
 	normalizeMonitors(p)
+	normalizeConstReceivers(p)
 	for _, fi := range p.Funcs {
 		if fi.Decl.Body == nil {
 			continue
